@@ -78,6 +78,10 @@ CHECKS = [
   "Generated interleavings of long-poll registrations (1-4 keys, held md5 current/stale/empty, deadlines expired / short / far), gRPC-style connections (real BiStreamConn actors over an in-memory tonic stream), subscribe / unsubscribe / disconnect, publishes with different and identical content, routed temporary values, removes and timeout waits. Completeness oracle: stale-at-registration listeners are answered at once naming every stale key, a later change answers every pending listener of that key naming it, a pending long-poll is answered by its deadline + tick + slack (real clock only here), Subscribe reports stale items, every connected subscriber finds a ConfigChangeNotifyRequest in its response channel after each change.",
   "The actor serialises messages, so the sequence order is the interleaving; HTTP/2 delivery and SDK reaction are not exercised. An applied publish that repeats the last applied content obliges no notification.",
   "property-based testing (proptest): completeness model over generated listen/publish/remove/disconnect interleavings"),
+ chk("C13", "E3 real single-node server, real clock", "exploration",
+  "Generated batches of 120 concurrent instance timelines (HTTP-ephemeral / persistent, register offset, heartbeat period 0.5 s .. 5.2 s or none, optional stop and re-registration) in real time against a real server with health time-out 4 s, instance time-out 5 s, 2 s tick; all instance lists are sampled every ~400 ms for 28 s and every (timeline, sample) is judged with one-sided windows derived from the measured send times: present and healthy while heartbeats arrive within the time-out, unhealthy after health time-out + tick + slack, gone after instance time-out + 2 ticks + slack, persistent instances never expired.",
+  "Real clock with one-sided windows (scheduling delay can only make the check more lenient). gRPC-owned instances are covered by C11/C12; take-over after a node failure is exercised by C15's kill schedules.",
+  "property-based testing (proptest-generated timelines) with a timing-window oracle on a real server"),
  chk("C16", "E1 route discovery + E3 real server (HTTP raw client, tonic gRPC client)", "exploration",
   "Routes are discovered at run time from the real app_config ResourceMap (self-tested on sentinel routes). Complete matrix: in-scope routes x 6 methods x token carriers x token values (absent, empty, garbage, never issued, prefix of a valid one, expired, valid) on a real server with auth on; every gRPC request type found in the handler module plus near misses with/without session and cluster token; plus tens of thousands of generated path spellings (trailing/doubled slash, case, percent-encoding incl. '/', ';param', '/./', '/zz/..', static suffixes). Oracle: no valid token and a router path under /nacos/ or /rnacos/v1/ (minus the statement's exemptions) => the auth refusal, or no handler exists for the same request with a valid token; writes leave data unchanged; a valid token is never refused.",
   "Exemptions read literally from the statement. Valid+invalid tokens in two carriers of one request are not generated. With no cluster token configured cluster requests are not asserted (the statement conditions on 'when one is configured').",
@@ -95,7 +99,7 @@ ENGINES = [
   "kind_free_text": "LD_PRELOAD journal of file mutations in a recorder child; parent materialises every journal prefix and runs the real recovery code on it"},
  {"name": "E2", "path": "harness/src/node.rs", "serves_properties": ["C01", "C07", "C19"],
   "kind_free_text": "scripted full node (starter::config_factory + build_share_data) in a child process per phase: leader path through the real Raft, follower path through RaftStorage calls, restart = new process"},
- {"name": "E3", "path": "harness/src/cluster.rs, harness/src/c18/srv.rs", "serves_properties": ["C06", "C08", "C16", "C17", "C18"],
+ {"name": "E3", "path": "harness/src/cluster.rs, harness/src/c18/srv.rs", "serves_properties": ["C06", "C08", "C13", "C16", "C17", "C18"],
   "kind_free_text": "real rnacos-real processes (the shipped main.rs built from /repo's working tree) on loopback with HTTP clients; nemesis by pid (kill -9, restart)"},
 ]
 
